@@ -1443,7 +1443,14 @@ func (c *Client) Options(u *base.URL) (*base.Response, error) {
 	}
 }
 
+// clientMaxRedirects is the maximum number of redirects that are followed by a DESCRIBE request.
+const clientMaxRedirects = 10
+
 func (c *Client) doDescribe(u *base.URL) (*description.Session, *base.Response, error) {
+	return c.doDescribeInner(u, 0)
+}
+
+func (c *Client) doDescribeInner(u *base.URL, redirects int) (*description.Session, *base.Response, error) {
 	err := c.checkState(map[clientState]struct{}{
 		clientStateInitial:   {},
 		clientStatePrePlay:   {},
@@ -1480,6 +1487,10 @@ func (c *Client) doDescribe(u *base.URL) (*description.Session, *base.Response, 
 		if res.StatusCode >= base.StatusMovedPermanently &&
 			res.StatusCode <= base.StatusUseProxy &&
 			len(res.Header["Location"]) == 1 {
+			if redirects >= clientMaxRedirects {
+				return nil, nil, fmt.Errorf("too many redirects")
+			}
+
 			c.reset()
 
 			var ru *base.URL
@@ -1499,7 +1510,7 @@ func (c *Client) doDescribe(u *base.URL) (*description.Session, *base.Response, 
 			c.Scheme = ru.Scheme
 			c.Host = ru.Host
 
-			return c.doDescribe(ru)
+			return c.doDescribeInner(ru, redirects+1)
 		}
 
 		return nil, res, liberrors.ErrClientBadStatusCode{Code: res.StatusCode, Message: res.StatusMessage}
